@@ -261,3 +261,22 @@ def c09(run):
     run.assumptions += [STD_GUARD, W8.replace("usize", "each wider integer type"),
                         "exhaustive=true refers to u8 and i8 (all bound pairs); start.. is compared on prefixes that "
                         "stay below T::MAX (stepping past it is a debug_assert in konst, profile-dependent in std)"]
+
+
+# ------------------------------------------------------------------------------------------- C06
+@check("C06", rule="one behaviour = a distinct iterator state (iterator kind, string, delimiter, remaining window, "
+                    "State enum, forward/Rev) with its witness path; next, next_back (where defined) and remainder "
+                    "are compared for &str and char delimiters; non-trivial = the string contains the delimiter")
+def c06(run):
+    q = run.tier == "quick"
+    out = vec("C06-Split.ndjson")
+    if os.path.exists(out):
+        os.remove(out)
+    run.mc("MC_Split", "Split.quick.cfg" if q else "Split.thorough.cfg", env={"OUT": out}, heap="8g", timeout=3000)
+    run.sample_file(out)
+    run.replay([out], "Split state graph")
+    run.record_and_validate("Split", "Trace_Split", "Trace_Split.cfg", n_files=4 if q else 16,
+                            n_events=3000 if q else 12000)
+    run.assumptions += [BOUNDED, STD_GUARD,
+                        "front and back steps are mixed only for one-character delimiters (std is double-ended only "
+                        "there); rsplit_terminator's mirrored rule is the specification's own reference"]
